@@ -22,6 +22,8 @@ import (
 //	snap             ctx.Snapshot(), id pushed on the invocation's stack
 //	rest             ctx.RestoreSnapshot(stack[N]); stack cut to N entries
 //	ssnap/srest      Snapshot()/RestoreSnapshot() on the retained handle of store S (own stack per store)
+//	iter             Iterate(scanBounds[P], limit, Rev) on store S through handle H (scan_test.go); Lim 0 = no limit (-1)
+//	range            Range(scanBounds[A], scanBounds[B], limit, Rev) on store S through handle H
 type Op struct {
 	K   string `json:"k"`
 	S   int    `json:"s,omitempty"`
@@ -31,6 +33,11 @@ type Op struct {
 	Tag int    `json:"tag,omitempty"`
 	Top int    `json:"top,omitempty"`
 	N   int    `json:"n,omitempty"`
+	P   int    `json:"p,omitempty"`
+	A   int    `json:"a,omitempty"`
+	B   int    `json:"b,omitempty"`
+	Lim int    `json:"lim,omitempty"`
+	Rev bool   `json:"rev,omitempty"`
 }
 
 // TxScript is carried in Transaction.Params (JSON).
@@ -105,10 +112,11 @@ type probe struct {
 type recorder struct {
 	gets   []obs
 	probes []probe
+	scans  []scanObs // what Iterate/Range returned (scan_test.go)
 	errs   []string
 }
 
-func (r *recorder) reset() { r.gets, r.probes, r.errs = nil, nil, nil }
+func (r *recorder) reset() { r.gets, r.probes, r.scans, r.errs = nil, nil, nil, nil }
 
 // changeCtx is what every state-changing context of the state machine offers a module.
 type changeCtx interface {
@@ -161,6 +169,8 @@ func (e *env) run(ops []Op) {
 		case "has":
 			ok := e.store(op.S, op.H).Has(keyUniverse[op.Key])
 			rec.gets = append(rec.gets, obs{Where: e.where, Op: "has", S: op.S, Key: op.Key, Exist: ok})
+		case "iter", "range":
+			e.scanOp(op)
 		case "ev", "uev":
 			topics := []codec.Hex{}
 			for j := 0; j < op.Top; j++ {
